@@ -201,7 +201,7 @@ func emitBaseTreeCode(repo string) (string, error) {
 		prelude: "variable (E : Flamego.Engine) (hok : Nat → Bool)\n",
 		skip: map[string]string{
 			"getParent": "returns an interface value", "getSegment": "returns a pointer", "setSubtrees": "a setter", "setLeaves": "a setter",
-			"getSubtrees": "a getter", "getLeaves": "a getter", "hasMatchAllSubtree": "used when routes are added", "hasMatchAllLeaf": "used when routes are added",
+			"getSubtrees": "a getter", "getLeaves": "a getter",
 			"getBinds": "a constant", "match": "a constant", "getMatchStyle": "anonymous receiver"},
 	})
 }
